@@ -40,6 +40,13 @@ func statusFaults() []statusFault {
 			rs.Issuer.State = hexOfInt(r.BigBelow(poseidonQ()))
 		}},
 		{name: "state-nil", mod: func(rs *verifiable.RevocationStatus, is *Issuer, nonce uint64, r *Rng) { rs.Issuer.State = nil }},
+		{name: "state-near-miss", mod: func(rs *verifiable.RevocationStatus, is *Issuer, nonce uint64, r *Rng) {
+			// the right state but for one bit (or one unit): equal in most of its digits, bytes and prefixes - and not equal
+			rs.Issuer.State = hexOfInt(nearMiss(is.State(), r))
+		}},
+		{name: "revocation-root-near-miss", mod: func(rs *verifiable.RevocationStatus, is *Issuer, nonce uint64, r *Rng) {
+			rs.Issuer.RevocationTreeRoot = hexOfInt(nearMiss(is.revs.Root().BigInt(), r))
+		}},
 		{name: "claims-root-replaced", mod: func(rs *verifiable.RevocationStatus, is *Issuer, nonce uint64, r *Rng) {
 			rs.Issuer.ClaimsTreeRoot = hexOfInt(r.BigBelow(poseidonQ()))
 		}},
@@ -467,3 +474,21 @@ func emitHTTP(out *Out, r *Rng, is *Issuer) {
 }
 
 func init() { gens["C09"] = genC09 }
+
+// nearMiss: x with one bit flipped or one unit added - a different field element that agrees with x in almost everything
+func nearMiss(x *big.Int, r *Rng) *big.Int {
+	y := new(big.Int).Set(x)
+	switch r.Intn(4) {
+	case 0:
+		y.Add(y, big.NewInt(1))
+	case 1:
+		y.Sub(y, big.NewInt(1))
+	default:
+		b := []int{0, 1, 7, 8, 9, 15, 16, 63, 64, 128, 200, 247}[r.Intn(12)]
+		y.SetBit(y, b, y.Bit(b)^1)
+	}
+	if y.Sign() < 0 || y.Cmp(poseidonQ()) >= 0 || y.Cmp(x) == 0 {
+		y.Xor(x, big.NewInt(1))
+	}
+	return y
+}
